@@ -5,6 +5,8 @@ package c18
 
 import (
 	"crypto"
+	"crypto/ecdsa"
+	"crypto/rsa"
 	"encoding/binary"
 	"encoding/json"
 	"fmt"
@@ -39,6 +41,7 @@ type Scenario struct {
 	Parallel   int        `json:"parallel,omitempty"`    // >0: that many signer/verifier pairs work concurrently, each with its own key (Deliveries are ignored)
 	Leftovers  bool       `json:"leftovers,omitempty"`   // the SIG record handed to Sign is a recycled one: every field Sign is documented to fill in itself still holds something
 	Resign     bool       `json:"resign,omitempty"`      // the signer uses its SIG record a second time (a template kept between messages); the second output is what travels
+	NearLimit  int        `json:"near_limit,omitempty"`  // > 0: the padding is adjusted until message + SIG record is this many octets short of 65535 (1 = fits exactly)
 	ThirdParty int        `json:"third_party,omitempty"` // the message that travels is signed by an independent implementation (own digest construction, standard library crypto): 1 ECDSA with the smaller s, 2 with the larger s, 3 as it comes
 	Msg        gen.Recipe `json:"msg"`
 	Key        int        `json:"key"`
@@ -91,6 +94,10 @@ func Gen(seed uint64, tier string) any {
 	if core.Chance(r, 8) {
 		sc.Parallel = 2 + r.IntN(3)
 	}
+	if core.Chance(r, 6) {
+		sc.NearLimit = core.Pick(r, 1, 2, 50, 130, 384, 385, 450)
+		sc.Msg.Pad, sc.Msg.Compress = 60000, core.Chance(r, 30)
+	}
 	sc.Resign = core.Chance(r, 25)
 	if core.Chance(r, 30) {
 		sc.ThirdParty = 1 + r.IntN(3)
@@ -124,8 +131,10 @@ func Gen(seed uint64, tier string) any {
 			d.Fault = "wrongkey"
 		case x < 91:
 			d.Fault = "othername"
-		case x < 93:
+		case x < 92:
 			d.Fault = "parentname"
+		case x < 93:
+			d.Fault = "lookalike"
 		case x < 94:
 			d.Fault = "damagedkey"
 		case x < 96:
@@ -235,6 +244,17 @@ var (
 	keys     []keyPair
 )
 
+// sigLen is the length of the signatures a key makes (RSA: the modulus; ECDSA: two field elements; Ed25519: 64).
+func sigLen(k crypto.Signer) int {
+	switch pk := k.Public().(type) {
+	case *rsa.PublicKey:
+		return pk.Size()
+	case *ecdsa.PublicKey:
+		return 2 * ((pk.Curve.Params().BitSize + 7) / 8)
+	}
+	return 64
+}
+
 func loadKeys() {
 	for _, kt := range gen.KeyText {
 		rr, err := dns.NewRR(kt.Pub)
@@ -306,6 +326,22 @@ func runIn(sc *Scenario, res *core.Result, verbose bool) {
 
 	m := sc.Msg.Build()
 	packed, perr := m.Pack()
+	if sc.NearLimit > 0 && perr == nil {
+		// steer the packed size to the very edge of what can still be signed with this key
+		rc := sc.Msg
+		want := 65535 - (1 + 10 + 18 + len(kp.key.Hdr.Name) + 1 + sigLen(kp.priv)) - (sc.NearLimit - 1)
+		for i := 0; i < 6 && perr == nil && len(packed) != want; i++ {
+			rc.Pad += want - len(packed)
+			if rc.Pad < 1 {
+				break
+			}
+			m = rc.Build()
+			packed, perr = m.Pack()
+		}
+		if perr == nil && len(packed) == want {
+			res.Bump("cover.message_at_the_signable_limit")
+		}
+	}
 	if perr != nil {
 		// not a signable message (too large, unpackable record): outside the property
 		res.Bump("cover.unpackable_recipe")
@@ -337,7 +373,7 @@ func runIn(sc *Scenario, res *core.Result, verbose bool) {
 		res.Fail("Q1", "sign-changed-message", "after SIG.Sign (err=%v) the caller's message packs to %d octets, before it was %d: Sign altered the message it was given", err, len(after), len(packed))
 		return
 	}
-	sigRRLen := 1 + 10 + 18 + len(kp.key.Hdr.Name) + 1 + 520 // room for the largest signature (RSA-4096: 512 octets)
+	sigRRLen := 1 + 10 + 18 + len(kp.key.Hdr.Name) + 1 + sigLen(kp.priv) // owner, fixed part, SIG RDATA up to the signer name, the signature of this very key
 	if err != nil {
 		if len(packed)+sigRRLen > 65535 {
 			res.Bump("cover.too_large_to_sign")
@@ -571,6 +607,21 @@ func runIn(sc *Scenario, res *core.Result, verbose bool) {
 			key = dk
 			tampered = true
 			res.Bump("fault.key_material_damaged")
+		case "lookalike":
+			// a KEY whose owner only looks like the signer's name: a letter replaced by a code point
+			// that folds to it under Unicode rules (KELVIN SIGN for k, LONG S for s), raw in the name
+			lk := dns.Copy(kp.key).(*dns.KEY)
+			switch {
+			case strings.ContainsAny(lk.Hdr.Name, "kK"):
+				lk.Hdr.Name = strings.Replace(strings.Replace(lk.Hdr.Name, "k", "\u212a", 1), "K", "\u212a", 1)
+			case strings.ContainsAny(lk.Hdr.Name, "sS"):
+				lk.Hdr.Name = strings.Replace(strings.Replace(lk.Hdr.Name, "s", "\u017f", 1), "S", "\u017f", 1)
+			default:
+				lk.Hdr.Name = "x" + lk.Hdr.Name
+			}
+			key = lk
+			tampered = true
+			res.Bump("fault.key_lookalike_owner")
 		case "parentname":
 			key = kp.parent // a key of an enclosing domain is not the signer's key
 			tampered = true
